@@ -32,7 +32,9 @@ ASSUMPTIONS = [
     "histories quantify over every api_op except OpRerun; Request succeeded is part of the alphabet",
 ]
 
-FAM = progs.family(steps=(15, 70), w_ctrl=1.6, w_malformed=0.3, p_fail=0.3, w_rerun=0.2)
+# reruns only when nothing is in flight: a rerun naming an execution whose action is still running is finding
+# C15-rerun-of-inflight-task (its late report raises KeyError), outside what C04 quantifies over
+FAM = progs.family(rerun_only_when_idle=True, steps=(15, 70), w_ctrl=1.6, w_malformed=0.3, p_fail=0.3, w_rerun=0.2)
 
 
 def features(sess):
